@@ -4,10 +4,10 @@ import os
 
 from . import common as c
 
-SUPPORT = ["Opts/Spec.v", "Opts/Proofs.v"]
+SUPPORT = ["Opts/Spec.v", "Opts/Proofs.v", "Opts/Entry.v"]
 
 CLAIM = {
-    "gens": ["OptBits"],
+    "gens": ["OptBits", "EntryPoints"],
     "text": "Theorems (Coq, all 2^16 Config values, finite sweep by vm_compute lifted with forallb_forall): Config.Froze - regenerated from sonic.go on every run - sets exactly the documented option bits; the bits agree across public/internal/JIT/VM/native layers and are pairwise distinct; Encoder/Decoder setters flip the same bit. The documented *effect* of every switch and the entry-point equivalences are decided on the real code by metamorphic runs with encoding/json as oracle (tie/search half, not a theorem).",
     "note": "Trusted: Coq kernel + vm_compute, the translator tools/tx, extraction (ExtrOcamlBasic), Go harness, encoding/json as oracle. Option effects are tested, not proved.",
     "technique": "Coq proof over a model regenerated from source (translator) + exhaustive froze tie + metamorphic differential search",
@@ -35,7 +35,7 @@ def run(ctx):
         "the option *effects* (EscapeHTML = json.HTMLEscape of the output, SortMapKeys only reorders, ...) are decided on the real code by metamorphic runs with encoding/json as oracle; the Coq theorems cover the Config -> option-word translation, the agreement of bit positions across layers and the setter methods, for all 2^16 configurations",
         "Config{UseInt64,UseNumber both true} is excluded from the runs: Decoder.SetOptions documents a panic for it",
     ]
-    p_ok = c.standard_P(ctx, ["OptBits"], SUPPORT)
+    p_ok = c.standard_P(ctx, CLAIM["gens"], SUPPORT)
     problems = []
     if not p_ok:
         problems.append(("P", getattr(ctx, "p_fail", "proof half failed")))
